@@ -161,9 +161,15 @@ func c05Check(c *Ctx, form string, forest []*MNode, branch []string, op Op, doc 
 		}
 		return e
 	}
+	// now and then the callback forms run under the scheduler too: whatever goroutine a walk
+	// starts must be gone when the walk returns, also when it was stopped early
+	simAll := deferred && c.Chance(1, 4)
+	if simAll {
+		c.st.Count("callback-forms-under-the-scheduler")
+	}
 	run := func(failAt int) *Outcome {
 		c.st.Count("evaluations")
-		if op.Kind == "walkiter" {
+		if op.Kind == "walkiter" || simAll {
 			e := mk(failAt)
 			e.MaxSteps = 20000
 			e.AllowBubbleErr = true
@@ -263,6 +269,9 @@ func c05Check(c *Ctx, form string, forest []*MNode, branch []string, op Op, doc 
 			if visitKey(out.Visits[i]) != visitKey(base.Visits[i]) {
 				fail("C05:prefix-differs:"+form, "stop at visit %d: visit %d is %s, fault-free walk had %s", k, i, visitKey(out.Visits[i]), visitKey(base.Visits[i]))
 			}
+		}
+		if op.Kind != "walkiter" && simAll && (out.BubbleErr != "" || out.Hang || len(out.Leaks) > 0) {
+			fail("C05:goroutine-left-behind:"+form, "the callback failed at visit %d, the walk returned %v, and a goroutine it started is still there: %s %s", k, out.Err, out.BubbleErr, leakSig(out))
 		}
 		if op.Kind == "walkiter" {
 			if out.Err != nil {
